@@ -218,6 +218,8 @@ def n_tun(secure, auth):
         opts["http_proxy_auth"] = ("user", "pa:ss")
     elif auth == "user":
         opts["http_proxy_auth"] = ("user", None)
+    elif auth == "long":
+        opts["http_proxy_auth"] = ("service-account-with-a-long-name", "t0ken-" + "x" * 70)
     ws, err = None, None
     try:
         try:
@@ -243,7 +245,7 @@ def n_tun(secure, auth):
     if auth == "none":
         sx.require(not cred, "no credentials unless configured")
     else:
-        raw = "user:pa:ss" if auth == "userpass" else "user"
+        raw = {"userpass": "user:pa:ss", "user": "user", "long": "service-account-with-a-long-name:t0ken-" + "x" * 70}[auth]
         sx.require(cred == ["Proxy-Authorization: Basic " + base64.b64encode(raw.encode()).decode()], "Basic credentials as configured", got=str(cred))
     if ws is not None:
         sx.require(is200, "the client proceeds only on a 200 reply from the proxy", auth=auth, secure=secure)
@@ -280,8 +282,8 @@ def obligations(tier):
         Obligation("N-info", n_info, [dict(secure=s) for s in (False, True)], bounds="proxy host/port/auth options x {unset, plain, with credentials} for each of "
                    "http_proxy, HTTP_PROXY, https_proxy, HTTPS_PROXY x 4 no_proxy source patterns, ws and wss (full product)",
                    must_cover=["proxied", "direct"], budget_s=1800, kernel=["_url.get_proxy_info", "_is_no_proxy_host"]),
-        Obligation("N-tun", n_tun, [dict(secure=s, auth=a) for s in (False, True) for a in ("none", "user", "userpass")],
-                   bounds="proxy reply status symbolic over 100..599 (3 symbolic digits); no / user / user:password credentials; ws and wss",
+        Obligation("N-tun", n_tun, [dict(secure=s, auth=a) for s in (False, True) for a in ("none", "user", "userpass", "long")],
+                   bounds="proxy reply status symbolic over 100..599 (3 symbolic digits); no / user / user:password / 109-byte credentials (base64 longer than one MIME line); ws and wss",
                    must_cover=["tunnelled", "tunnel-refused"], step_budget=100000,
                    kernel=["_http._tunnel", "_http.connect", "_get_addrinfo_list", "_ssl_socket (stubbed)", "_handshake.handshake"]),
     ]
